@@ -261,10 +261,11 @@ func (s *verifStore) Save(key uint, value net.Buffers) error {
 		s.ops = append(s.ops, verifOp{'S', key, false})
 		return verifErrStore
 	}
-	var v []byte
-	for _, b := range value {
-		v = append(v, b...)
-	}
+	// like the library's own FileSystem store: the value is written out with
+	// net.Buffers.WriteTo, which consumes the buffers it is given
+	w := &verifSink{}
+	value.WriteTo(w)
+	v := w.b
 	if v == nil {
 		v = []byte{}
 	}
@@ -309,6 +310,13 @@ func (s *verifStore) List() ([]uint, error) {
 		}
 	}
 	return keys, nil
+}
+
+type verifSink struct{ b []byte }
+
+func (w *verifSink) Write(p []byte) (int, error) {
+	w.b = append(w.b, p...)
+	return len(p), nil
 }
 
 // put installs a record directly (building a pre-state).
